@@ -87,4 +87,23 @@ PROPS = {
         "scope": "internal/helpers/dataurl.go: EncodeStringAsPercentEscapedDataURL modelled; export matching, module ordering, wrappers and runtime helpers are reached by the native-vs-bundle search only (so far)",
         "assumptions": ["Node 20 is the reference for native module semantics"],
     },
+    "C01": {
+        "lean_modules": ["EsbuildModel.Props.C01"],
+        "theorems": ["EsbuildModel.C01.string_literal_value_preserved"],
+        "gen_facts": [],
+        "kernels": [("quote", 30000, 1500000)],
+        "searches": [("c01-prog", 500, 40000)],
+        "scope": "internal/js_printer/js_printer.go: printUnquotedUTF16 (all escaping branches incl. line-limit continuations, </script, ${, surrogates, ASCII-only with/without \\u{...}) modelled; the rest of the printer/parser is reached by the Node differential search only",
+        "assumptions": ["utf8.EncodeRune is the standard UTF-8 encoder (validated by correspondence, not proved)", "Spec.JsString is my reading of ECMA-262 SV/TV for literal bodies"],
+    },
+    "C13": {
+        "lean_modules": ["EsbuildModel.Props.C13"],
+        "theorems": ["EsbuildModel.C13.string_literal_body_valid"],
+        "open": ["Accept.all_renderings: `var await = 1; await` (script goal) is rejected — known finding c13-await-identifier-in-script"],
+        "gen_facts": [],
+        "kernels": [("quote", 30000, 1500000)],
+        "searches": [("c13-syntax", 1500, 100000)],
+        "scope": "string/template literal bodies (printUnquotedUTF16) modelled; statement/expression grammar validity, acceptance of valid input and the fixed-point property are decided by V8 (vm.Script / vm.SourceTextModule) in the search",
+        "assumptions": ["V8 (Node 20) is the reference parser; one known V8 bug (destructuring assignment in call arguments) is cross-checked with esbuild's own parser"],
+    },
 }
